@@ -56,6 +56,10 @@ def run_mem(case):
             return out
         link = env.world.links[0]
         dev = env.device
+        if case.get('prefix_after_connect') is not None:
+            # systematic single preemptions: the k-th scheduling decision after the handshake goes to another thread
+            s.prefix = list(case['prefix_after_connect'])
+            s.ci = 0
         written = [dict() for _ in dev.mem.mems]      # model overlay: addr -> byte for successful writes
         uncertain = [set() for _ in dev.mem.mems]
         initial = [(lambda a, m=m: m.peek(a, 1)[0]) for m in dev.mem.mems]
@@ -318,7 +322,7 @@ def mem_case(draw):
         if draw(st.sampled_from([False, False, False, True])):
             ops[i] = dict(ops[i - 1], seed=ops[i]['seed'], gap=draw(st.sampled_from([0, 0, 0.0005])))
     resend = draw(st.booleans())
-    delays = draw(st.one_of(st.just([]), st.lists(st.sampled_from([0.001, 0.001, 0.01, 0.19, 0.21, 0.5, 1.05, 1.3] if resend else [0.001, 0.01, 0.5]),
+    delays = draw(st.one_of(st.just([]), st.lists(st.sampled_from([0.0, 0.001, 0.001, 0.01, 0.19, 0.21, 0.5, 1.05, 1.3] if resend else [0.0, 0.0, 0.001, 0.01, 0.5]),
                                                    min_size=1, max_size=6)))
     mode = draw(st.sampled_from(['clean', 'dups', 'errors', 'drop', 'mixed']))
     dups = draw(st.lists(st.integers(0, 12), max_size=4, unique=True)) if mode in ('dups', 'mixed') else []
@@ -480,10 +484,26 @@ def deck_api_case(draw):
     return {'decks': [{'base': b} for b in bases], 'ops': ops, 'errors': errors}
 
 
+def single_preemption_cases(tier):
+    """replies without latency; exactly one forced thread switch at the k-th scheduling decision of a fixed history"""
+    hist = [
+        [{'op': 'write', 'mem': 0, 'addr': 2, 'len': 60, 'seed': 1, 'flush': False, 'gap': 0},
+         {'op': 'write', 'mem': 0, 'addr': 70, 'len': 30, 'seed': 2, 'flush': False, 'gap': 0}],
+        [{'op': 'read', 'mem': 0, 'addr': 0, 'len': 45, 'seed': 0, 'flush': False, 'gap': 0},
+         {'op': 'write', 'mem': 0, 'addr': 5, 'len': 26, 'seed': 3, 'flush': False, 'gap': 0}],
+    ]
+    for h in hist:
+        for k in range(0, 40 if tier == 'quick' else 120):
+            for other in (1, 2):
+                yield {'sizes': [128], 'ops': h, 'needs_resending': False, 'policy': {'delays': [0.0], 'dups': [], 'errors': [], 'dup_gap': 0.001},
+                       'drop': None, 'asap': True, 'schedule': {'prefix': [], 'seed': 0, 'rate': 0.0}, 'prefix_after_connect': [0] * k + [other]}
+
+
 def subchecks(tier):
     return [
         Sub('histories', run_mem, strategy=mem_case(), examples={'quick': 160, 'thorough': 8000}),
         Sub('late-duplicates', run_mem, cases=late_duplicate_cases, distinct_by_construction=True),
+        Sub('single-preemptions', run_mem, cases=single_preemption_cases, distinct_by_construction=True),
         Sub('drop-sweep', run_mem, cases=drop_sweep_cases, distinct_by_construction=True),
         Sub('deck-api', run_deck_api, strategy=deck_api_case(), examples={'quick': 600, 'thorough': 30000}),
     ]
